@@ -30,6 +30,20 @@ def scenarios(rng, tier):
             if rng.random() < 0.3: s.frame(1, generic(rng.randrange(256), 2, M, M, B, B))
             s.frame(1, query(M, B, seq=rng.randrange(1, 65536)))
             if rng.random() < 0.5: s.frame(1, query(M, B, seq=rng.randrange(1, 65536)))
+    for k in range(16 if tier == 'quick' else 300):
+        A = bytes([2, 0xAA, 0, 0, 1, k & 255]); Bm = bytes([2, 0xBB, 0, 0, 2, k & 255]); mb = rng.choice([594, 1494, 1514, 576, 614])
+        cA = Cfg(0, mac=A, mtu=1500); cB = Cfg(1, mac=Bm, mtu=mb); capb = (mb - 34) // 20
+        s.start('edge_%d' % k); s.lines.append(cA.line()); s.lines.append(cB.line())
+        M, M2 = mac(1), mac(2); s.frame(0, discover(M, gen=5)); s.frame(1, discover(M, gen=5))
+        nd = rng.choice([capb, capb, capb - 1, 3])
+        for off in range(0, nd, 50):
+            descs = [(rng.choice([0, 1]), 0, mac(3000 + off + j), Bm) for j in range(min(50, nd - off))]
+            s.frame(0, emit(M, A, descs, seq=7)); s.op('relay 0 1 00')
+        var = k % 4
+        if var == 1: s.frame(1, reset(mac(9), tos=1)); s.frame(1, discover(M2, gen=6))           # another mapper takes over after a quick Reset
+        if var == 2: s.op('failalloc 1'); s.frame(1, query(M, Bm, seq=8)); s.op('failalloc clear')   # the response buffer cannot be allocated: the mapper asks again
+        mq = M2 if var == 1 else M
+        for q in range(3): s.frame(1, query(mq, Bm, seq=9 + q))
     return [(s.text(), {})]
 def project(blk, name, meta):
     # B's QueryResps as sets of observations; everything else by the kinds of frames sent
@@ -45,11 +59,13 @@ def project(blk, name, meta):
     if blk.op.startswith(('frame', 'relay')): return send_opcodes(blk)
     return ()
 def oracle(name, ib, mb, meta):
-    fails = []; A = B = None; expect = {}; unexpected = set()
+    fails = []; A = B = None; expect = {}; unexpected = set(); faulty = False
     for i, b in enumerate(ib):
         if b.op.startswith('cfg 0'): A = bytes.fromhex(dict(t.split('=', 1) for t in b.op.split()[2:])['mac'])
         if b.op.startswith('cfg 1'): B = bytes.fromhex(dict(t.split('=', 1) for t in b.op.split()[2:])['mac'])
+        if b.op.startswith('failalloc'): faulty = 'clear' not in b.op
         if b.fault or not b.op.startswith('frame'): continue
+        if faulty: continue
         ctx, fr = frame_of(b); d = dec(fr + bytes(max(0, 36 - len(fr))))
         if ctx == 0 and d['tos'] == 0 and d['opc'] == 2:
             n = (fr[32] << 8) | fr[33]
